@@ -142,6 +142,19 @@ fn json_hostile(doc: &Value) -> Vec<(String, Vec<u8>)> {
                 vars.push(("wide-char", rep(0, "\u{1F600}")));
                 vars.push(("nul", rep(mid, "\u{0}")));
                 vars.push(("uppercase", s.to_uppercase()));
+                // same BYTE length as the original, but with a multi-byte character inside
+                // (a decoder that slices the string in byte pairs must not split a character)
+                if s.is_ascii() && s.len() >= 8 {
+                    for off in [0usize, 1, 2, 3, mid, mid + 1, s.len() - 3, s.len() - 4] {
+                        if off + 3 <= s.len() {
+                            vars.push(("2-byte-char-same-length", format!("{}\u{e9}{}", &s[..off], &s[off + 2..])));
+                            vars.push(("3-byte-char-same-length", format!("{}\u{20ac}{}", &s[..off], &s[off + 3..])));
+                        }
+                        if off + 4 <= s.len() {
+                            vars.push(("4-byte-char-same-length", format!("{}\u{1F600}{}", &s[..off], &s[off + 4..])));
+                        }
+                    }
+                }
                 vars.push(("odd-length", s[..s.len() - 1].to_string()));
                 vars.push(("one-char", s[..1].to_string()));
                 vars.push(("too-short-2", s[..s.len().saturating_sub(2)].to_string()));
